@@ -11,7 +11,12 @@ def specs():
                          ("c.msg.time0", "time0"), ("c.msg.ttl", "ttl")],
                  calls={"replay_alloc": ("ptrinput", "r", True), "log_err": ("event", 0, []), "log_msg": ("ignore", 0),
                         "replay_free": ("event", 0, []),
-                        "hash_insert": ("outinput", "r_hash_insert", (64, False), {}, [], [{"errno": ("errno_insert", (32, True))}])})]
+                        "hash_insert": ("outinput", "r_hash_insert", (64, False), {}, [], [{"errno": ("errno_insert", (32, True))}])}),
+            dict(name="replay_remove", named_free=True,
+                 inputs=[("replay_hash", "replay_hash_ptr"), ("conf.got_benchmark", "got_benchmark"), ("c", "c_ptr"),
+                         ("c.msg.time0", "time0"), ("c.msg.ttl", "ttl")],
+                 calls={"log_err": ("event", 0, []), "log_msg": ("ignore", 0), "replay_free": ("event", 0, []),
+                        "hash_remove": ("outinput", "r_hash_remove", (64, False), {}, [])})]
 
 
 def generate(ctx):
